@@ -29,6 +29,7 @@ import (
 	"go/build"
 	"go/parser"
 	"go/token"
+	"go/types"
 	"os"
 	"os/exec"
 	"path/filepath"
@@ -62,7 +63,210 @@ var sinkAPIs = [][2]string{
 	{"syscall", "Mkdir"}, {"syscall", "Exec"}, {"syscall", "ForkExec"}, {"syscall", "Dup2"}, {"syscall", "Dup"},
 }
 
-var quietTargets = map[string]bool{"os.Stderr": true, "os.Stdout": true, "&collect": true}
+// prints to the terminal or into a local buffer
+var quietCats = map[string]bool{"write:os.Stderr": true, "write:os.Stdout": true, "write:localvar": true}
+
+// kindOf: what a sink API does.
+func kindOf(owner, name string) (kind string, target int) { // target: 0 = first argument, -1 = receiver, -2 = none
+	switch {
+	case owner == "os" && (name == "Mkdir" || name == "MkdirAll" || name == "MkdirTemp"):
+		return "mkdir", 0
+	case owner == "os" && (name == "OpenFile" || name == "Create"):
+		return "open", 0
+	case owner == "os" && name == "CreateTemp":
+		return "tempfile", -2
+	case owner == "os" && name == "WriteFile":
+		return "writefile", 0
+	case owner == "os" && name == "Rename":
+		return "rename", 0
+	case owner == "os" && (name == "Remove" || name == "RemoveAll"):
+		return "remove", 0
+	case owner == "fmt", owner == "io":
+		return "write", 0
+	case owner == "*os.File" || owner == "*bufio.Writer":
+		return "write", -1
+	case strings.HasSuffix(owner, "goexpect") && strings.HasPrefix(name, "Spawn"):
+		return "pty-spawn", -2
+	case strings.HasSuffix(owner, "goexpect.GExpect") && name == "Send":
+		return "pty-send", -2
+	case strings.HasSuffix(owner, "goexpect.GExpect"):
+		return "pty-expect", -2
+	case strings.HasSuffix(owner, "net/http.Client") || owner == "net/http" || owner == "net":
+		return "network", -2
+	case strings.HasSuffix(owner, "os/exec.Cmd") || (owner == "os" && name == "StartProcess"):
+		return "exec", -2
+	case owner == "syscall" && name == "Flock":
+		return "flock", -2
+	}
+	return owner + "." + name, -2
+}
+
+// category of a sink site = what the API does + where its target comes from.  No function, variable
+// or constant NAME enters it: the target expression is followed through the single assignments of the
+// enclosing function down to a parameter, a field, a package variable, a directory below the base
+// directory (`path.Join(cfg.BaseDir, "status")` -> basedir/status), a temporary file, ….
+func category(owner, name string, ci callInfo) string {
+	kind, t := kindOf(owner, name)
+	consts = ci.consts
+	switch {
+	case t == 0 && len(ci.call.Args) > 0:
+		return kind + ":" + rootOf(ci.call.Args[0], ci.fn, 0)
+	case t == -1:
+		if sel, ok := ci.call.Fun.(*ast.SelectorExpr); ok {
+			return kind + ":" + rootOf(sel.X, ci.fn, 0)
+		}
+	}
+	return kind
+}
+
+func isParam(fd *ast.FuncDecl, name string) bool {
+	if fd == nil {
+		return false
+	}
+	found := false
+	check := func(fl *ast.FieldList) {
+		if fl == nil {
+			return
+		}
+		for _, f := range fl.List {
+			for _, n := range f.Names {
+				if n.Name == name {
+					found = true
+				}
+			}
+		}
+	}
+	check(fd.Recv)
+	check(fd.Type.Params)
+	ast.Inspect(fd, func(n ast.Node) bool {
+		if fl, ok := n.(*ast.FuncLit); ok {
+			check(fl.Type.Params)
+		}
+		return true
+	})
+	return found
+}
+
+// definition of a local variable: the right-hand side of its first assignment, "var" for a
+// declaration without value, "range" for a loop variable
+func localDef(fd *ast.FuncDecl, name string) (ast.Expr, string) {
+	if fd == nil || fd.Body == nil {
+		return nil, ""
+	}
+	var rhs ast.Expr
+	kind := ""
+	ast.Inspect(fd.Body, func(n ast.Node) bool {
+		if kind != "" {
+			return false
+		}
+		switch v := n.(type) {
+		case *ast.AssignStmt:
+			for i, l := range v.Lhs {
+				if id, ok := l.(*ast.Ident); ok && id.Name == name {
+					if len(v.Rhs) == len(v.Lhs) {
+						rhs, kind = v.Rhs[i], "assign"
+					} else if len(v.Rhs) == 1 {
+						rhs, kind = v.Rhs[0], "assign"
+					}
+					return false
+				}
+			}
+		case *ast.ValueSpec:
+			for i, id := range v.Names {
+				if id.Name == name {
+					if i < len(v.Values) {
+						rhs, kind = v.Values[i], "assign"
+					} else {
+						kind = "var"
+					}
+					return false
+				}
+			}
+		case *ast.RangeStmt:
+			for _, e := range []ast.Expr{v.Key, v.Value} {
+				if id, ok := e.(*ast.Ident); ok && id.Name == name {
+					kind = "range"
+					return false
+				}
+			}
+		}
+		return true
+	})
+	return rhs, kind
+}
+
+func rootOf(e ast.Expr, fd *ast.FuncDecl, depth int) string {
+	if depth > 8 {
+		return "deep"
+	}
+	switch x := fold(e).(type) {
+	case *ast.ParenExpr:
+		return rootOf(x.X, fd, depth+1)
+	case *ast.UnaryExpr:
+		return rootOf(x.X, fd, depth+1)
+	case *ast.StarExpr:
+		return rootOf(x.X, fd, depth+1)
+	case *ast.BasicLit:
+		return "literal"
+	case *ast.BinaryExpr:
+		return rootOf(x.X, fd, depth+1)
+	case *ast.Ident:
+		if x.Name == "nil" {
+			return "nil"
+		}
+		if isParam(fd, x.Name) {
+			return "param"
+		}
+		rhs, kind := localDef(fd, x.Name)
+		switch kind {
+		case "assign":
+			return rootOf(rhs, fd, depth+1)
+		case "var":
+			return "localvar"
+		case "range":
+			return "range"
+		}
+		return "global"
+	case *ast.SelectorExpr:
+		if id, ok := x.X.(*ast.Ident); ok && (id.Name == "os") && (x.Sel.Name == "Stderr" || x.Sel.Name == "Stdout") {
+			return "os." + x.Sel.Name
+		}
+		if x.Sel.Name == "BaseDir" {
+			return "basedir"
+		}
+		return rootOf(x.X, fd, depth+1) + ".field"
+	case *ast.CallExpr:
+		fn := types.ExprString(x.Fun)
+		switch fn {
+		case "path.Join", "filepath.Join":
+			if len(x.Args) == 0 {
+				return "literal"
+			}
+			r := rootOf(x.Args[0], fd, depth+1)
+			if r == "basedir" && len(x.Args) > 1 {
+				if bl, ok := fold(x.Args[1]).(*ast.BasicLit); ok {
+					return "basedir/" + strings.Trim(bl.Value, "\"`")
+				}
+				return "basedir/*"
+			}
+			return r
+		case "path.Dir", "filepath.Dir", "path.Clean", "filepath.Clean", "fmt.Sprintf", "fmt.Sprint", "string":
+			for _, a := range x.Args {
+				if _, lit := fold(a).(*ast.BasicLit); !lit {
+					return rootOf(a, fd, depth+1)
+				}
+			}
+			return "literal"
+		case "os.CreateTemp":
+			return "tempfile"
+		}
+		if sel, ok := x.Fun.(*ast.SelectorExpr); ok && sel.Sel.Name == "Name" && len(x.Args) == 0 {
+			return rootOf(sel.X, fd, depth+1)
+		}
+		return "call"
+	}
+	return "expr"
+}
 
 type edge struct {
 	caller, callee string
@@ -150,10 +354,14 @@ func (g *graph) reach(roots ...string) map[string]bool {
 }
 
 type callInfo struct {
-	arg0 string
+	arg0   string
+	call   *ast.CallExpr
+	fn     *ast.FuncDecl     // enclosing function declaration (nil at package level)
+	consts map[string]string // named constants of its package
 }
 
 type sinkSite struct {
+	cat                   string // category: what kind of thing is written / talked to (see category)
 	fn, owner, name, arg0 string
 	quiet                 bool
 	line                  int
@@ -190,7 +398,9 @@ func analyse(repo string, fset *token.FileSet) (*analysis, error) {
 	}
 	R := g.reach(roots...)
 
-	// ---- AST of the whole module: first argument of every call, `go` statements
+	// ---- AST of the whole module: every call with its enclosing function, `go` statements
+	byDir := map[string][]*ast.File{}
+	var dirs []string
 	for _, sub := range []string{"pkg", "cmd"} {
 		err := filepath.Walk(filepath.Join(goDir, sub), func(p string, info os.FileInfo, err error) error {
 			if err != nil || info.IsDir() || !strings.HasSuffix(p, ".go") || strings.HasSuffix(p, "_test.go") {
@@ -204,34 +414,48 @@ func analyse(repo string, fset *token.FileSet) (*analysis, error) {
 			if err != nil {
 				return err
 			}
-			key := func(pos token.Pos) string {
-				ps := fset.Position(pos)
-				return fmt.Sprintf("%s:%d:%d", ps.Filename, ps.Line, ps.Column)
+			d := filepath.Dir(p)
+			if byDir[d] == nil {
+				dirs = append(dirs, d)
 			}
-			arg0 := func(c *ast.CallExpr) string {
-				if len(c.Args) == 0 {
-					return ""
-				}
-				return text(c.Args[0])
+			byDir[d] = append(byDir[d], f)
+			return nil
+		})
+		if err != nil {
+			return nil, err
+		}
+	}
+	key := func(pos token.Pos) string {
+		ps := fset.Position(pos)
+		return fmt.Sprintf("%s:%d:%d", ps.Filename, ps.Line, ps.Column)
+	}
+	for _, d := range dirs {
+		cm := collectConsts(byDir[d])
+		consts = cm
+		arg0 := func(c *ast.CallExpr) string {
+			if len(c.Args) == 0 {
+				return ""
 			}
+			return text(c.Args[0])
+		}
+		for _, f := range byDir[d] {
+			var cur *ast.FuncDecl
 			ast.Inspect(f, func(n ast.Node) bool {
 				switch v := n.(type) {
+				case *ast.FuncDecl:
+					cur = v
 				case *ast.CallExpr:
-					a.calls[key(v.Lparen)] = callInfo{arg0(v)}
+					a.calls[key(v.Lparen)] = callInfo{arg0(v), v, cur, cm}
 				case *ast.DeferStmt:
-					a.calls[key(v.Pos())] = callInfo{arg0(v.Call)}
+					a.calls[key(v.Pos())] = callInfo{arg0(v.Call), v.Call, cur, cm}
 				case *ast.GoStmt:
-					a.calls[key(v.Pos())] = callInfo{arg0(v.Call)}
+					a.calls[key(v.Pos())] = callInfo{arg0(v.Call), v.Call, cur, cm}
 					ps := fset.Position(v.Pos())
 					rel, _ := filepath.Rel(goDir, ps.Filename)
 					a.goStmts = append(a.goStmts, fmt.Sprintf("%s:%d", rel, ps.Line))
 				}
 				return true
 			})
-			return nil
-		})
-		if err != nil {
-			return nil, err
 		}
 	}
 	sort.Strings(a.goStmts)
@@ -263,7 +487,8 @@ func analyse(repo string, fset *token.FileSet) (*analysis, error) {
 			return nil, fmt.Errorf("sink call %s -> %s at %s: no call expression found there", e.caller, e.callee, pos)
 		}
 		s := sinkSite{fn: short(e.caller), owner: o, name: n, arg0: ci.arg0, line: e.line}
-		s.quiet = o == "fmt" && quietTargets[ci.arg0]
+		s.cat = category(o, n, ci)
+		s.quiet = quietCats[s.cat]
 		a.sinks = append(a.sinks, s)
 		if !s.quiet {
 			a.writers[e.caller] = true
